@@ -19,7 +19,7 @@ RULE = ("(a) all executions with <=2 environment deviations (population menu x r
         "from every checkpoint (and from the checkpoint left by a fault at every call index, thorough) is checked as well. "
         "Invariant: every populated series has one entry per iteration; sample_history = initial population + one per "
         "iteration with matching temperatures; recorded beta/ESS/ESS-at-1/log-ratio equal their definitions recomputed with "
-        "mpmath from the neighbouring stored populations. non-trivial = run with >=2 iterations or a resumed run")
+        "mpmath from the neighbouring stored populations; plus coarse fixed schedules (1-3 steps, N=12) on a sharply peaked likelihood, whose steps collapse the sample efficiency below 0.1. non-trivial = run with >=2 iterations or a resumed run")
 ASSUMPTIONS = [
     "stub kernels (teleport / random-walk / deterministic sweep); mcmc_autocorr is only populated by emcee_smc",
     "populations with N<=8 particles",
@@ -167,6 +167,11 @@ def run(tier, seed, workers):
         rep.merge(d)
     rep.count("explored_option_configs", len(cfgs))
     rcfgs = c11.configs(tier, seed)
+    # coarse fixed schedules on a sharply peaked likelihood: steps whose sample efficiency collapses (the loop's low-efficiency branch)
+    for sampler in ("smc", "emcee_smc"):
+        for n_steps in (1, 2, 3):
+            rcfgs.append({"sampler": sampler, "N": 12, "opts": {"adaptive": False, "n_steps": n_steps}, "cadence": 1, "n_final": None if n_steps != 2 else 16,
+                          "precond": "peaked", "seed": 0, "_tier": tier})
     for d in pmap("checks.c18", "resume_cfg", rcfgs, workers, chunksize=2):
         rep.merge(d)
     rep.count("resume_configs", len(rcfgs))
